@@ -77,6 +77,30 @@ Fixpoint str_contains (p s : text) : bool :=
   | _ :: s' => str_contains p s'
   end.
 
+(** `s.rindex(p)`: index of the last occurrence of p in s.  (Python raises
+    ValueError when there is none; here -1.  The correspondence run treats an
+    exception of the real code as a disagreement with the model.) *)
+Fixpoint rindex_go (s p : text) (i best : Z) : Z :=
+  let best' := if str_startswith s p then i else best in
+  match s with
+  | [] => best'
+  | _ :: r => rindex_go r p (i + 1) best'
+  end.
+
+Definition str_rindex (s p : text) : Z := rindex_go s p 0 (-1).
+
+(** a slice bound i on a sequence of length len: negative counts from the
+    end, everything is clamped to 0..len *)
+Definition py_index (len i : Z) : nat :=
+  Z.to_nat (if i <? 0 then Z.max 0 (len + i) else Z.min i len).
+
+(** `s[lo:hi]` (either bound may be absent, no step) *)
+Definition str_slice (s : text) (lo hi : option Z) : text :=
+  let len := Z.of_nat (length s) in
+  let l := match lo with None => 0%nat | Some i => py_index len i end in
+  let h := match hi with None => length s | Some i => py_index len i end in
+  firstn (h - l) (skipn l s).
+
 Notation buf := (list (pykey * text)).
 
 (** `buffer[k]` on a defaultdict(str), read access inside `buffer[k] += ...`:
